@@ -469,6 +469,65 @@ def gen_port_line(repo, port):
     return m
 
 
+def gen_get_timestamps(repo, regular):
+    """T21: Timing.get_timestamps end to end: the conversions and sign checks, the hand-over to the strategy of the mode, the three
+    strategies' get_timestamps (NONE refuses, REGULAR needs a timestamp and runs the generator of tier T10 from start_time, IRREGULAR
+    checks the window and slices), and the start_time property."""
+    ast = T.ast
+    base = f"{repo}/src/nitypes/waveform/_timing"
+
+    def body_text(path, cls, name, prop=False):
+        m_ = T.Module(path, "Gen.GetTimestamps")
+        c = m_.find_class(cls)
+        fn = next(n for n in c.body if isinstance(n, ast.FunctionDef) and n.name == name and (not prop or any(ast.unparse(d) == "property" for d in n.decorator_list)))
+        return [ast.unparse(st) for st in fn.body if not (isinstance(st, ast.Expr) and isinstance(st.value, ast.Constant)) and not isinstance(st, ast.Assert)], fn, m_.path
+    checks = [
+        (f"{base}/_timing.py", "Timing", "get_timestamps", False,
+         ["start_index = operator.index(start_index)", "count = operator.index(count)",
+          "if start_index < 0:\n    raise ValueError('The sample index must be a non-negative integer.')",
+          "if count < 0:\n    raise ValueError('The count must be a non-negative integer.')",
+          "return self._sample_interval_strategy.get_timestamps(self, start_index, count)"]),
+        (f"{base}/_timing.py", "Timing", "start_time", True,
+         ["value = self.timestamp", "if self.has_time_offset:\n    value += self.time_offset", "return value"]),
+        (f"{base}/_sample_interval/_none.py", "NoneSampleIntervalStrategy", "get_timestamps", False, ["raise create_no_timestamp_information_error()"]),
+        (f"{base}/_sample_interval/_regular.py", "RegularSampleIntervalStrategy", "get_timestamps", False,
+         ["if timing.has_timestamp:\n    return self._generate_regular_timestamps(timing, start_index, count)", "raise create_no_timestamp_information_error()"]),
+        (f"{base}/_sample_interval/_irregular.py", "IrregularSampleIntervalStrategy", "get_timestamps", False,
+         ["if start_index + count > len(timing._timestamps):\n    raise ValueError('The start index plus the count must be less than or equal to the number of timestamps.')",
+          "return timing._timestamps[start_index:start_index + count]"]),
+    ]
+    for path, cls, name, prop, want in checks:
+        got, fn, p = body_text(path, cls, name, prop)
+        if got != want:
+            raise T.Untranslatable(f"{cls}.{name} is not the expected statement list:\n" + "\n".join(got), fn, p)
+    m = T.Module(f"{base}/_timing.py", "Gen.GetTimestamps", imports=[regular])
+    m.extra_imports = ["NiVerif.Model.Timing"]
+    m.out += [
+        "/-- generated from `Timing.start_time`: the timestamp (RuntimeError when absent, by the accessor of tier T9b) plus the offset when there is one -/",
+        "@[pygen] def start_time (F : Model.Timing.Fam) (timestamp offset : Option Int) : Except PyErr Int :=",
+        "  match timestamp with\n  | none => Except.error PyErr.RuntimeError\n  | some value => (match offset with\n    | none => Except.ok value\n    | some off => F.abs (value + off))",
+        "",
+        "/-- generated from `NoneSampleIntervalStrategy.get_timestamps` -/",
+        "@[pygen] def none_get_timestamps : Except PyErr (List Int) := Except.error PyErr.NoTimestampInformationError",
+        "",
+        "/-- generated from `RegularSampleIntervalStrategy.get_timestamps` (the generator is tier T10's; it reads `timing.sample_interval`, then `timing.start_time`) -/",
+        "@[pygen] def regular_get_timestamps (F : Model.Timing.Fam) (timestamp offset interval : Option Int) (start_index count : Int) : Except PyErr (List Int) :=",
+        "  if timestamp.isSome = true then\n    (match interval with\n     | none => Except.error PyErr.RuntimeError\n     | some sample_interval =>\n"
+        "       Except.bind (start_time F timestamp offset) (fun st => Gen.Regular.generate_regular_timestamps F sample_interval st start_index count))\n"
+        "  else Except.error PyErr.NoTimestampInformationError",
+        "",
+        "/-- generated from `IrregularSampleIntervalStrategy.get_timestamps` -/",
+        "@[pygen] def irregular_get_timestamps (stamps : List Int) (start_index count : Int) : Except PyErr (List Int) :=",
+        "  if start_index + count > (stamps.length : Int) then Except.error PyErr.ValueError\n  else Except.ok ((stamps.drop start_index.toNat).take ((start_index + count).toNat - start_index.toNat))",
+        "",
+        "/-- generated from `Timing.get_timestamps` and the strategy table -/",
+        "@[pygen] def get_timestamps (F : Model.Timing.Fam) (mode : Model.Timing.Mode) (timestamp offset interval : Option Int) (stamps : List Int) (start_index count : Int) : Except PyErr (List Int) :=",
+        "  if start_index < 0 then Except.error PyErr.ValueError else\n  if count < 0 then Except.error PyErr.ValueError else\n  match mode with\n  | .irregular => irregular_get_timestamps stamps start_index count\n"
+        "  | .regular => regular_get_timestamps F timestamp offset interval start_index count\n  | _ => none_get_timestamps",
+        ""]
+    return m
+
+
 MODULES = [
     # (output file, builder, dependencies by output name)
     ("TimeValueTuple", lambda repo, deps: gen_time_value_tuple(repo), []),
@@ -496,6 +555,7 @@ MODULES = [
     ("AppendTiming", lambda repo, deps: gen_append_timing(repo), []),
     ("TestLoops", lambda repo, deps: gen_test_loops(repo, deps["DigitalState"]), ["DigitalState"]),
     ("PortLine", lambda repo, deps: gen_port_line(repo, deps["Port"]), ["Port"]),
+    ("GetTimestamps", lambda repo, deps: gen_get_timestamps(repo, deps["Regular"]), ["Regular"]),
 ]
 
 
